@@ -3,8 +3,7 @@ SPEC = dict(
     lean_project="HvNet", props_module="HvNet.Props.C39", driver="hvdrv_net",
     harness="hv_net", bin="hv_net", mode="c39",
     cases={"quick": 1200, "thorough": 30000},
-    refuted=["HvNet.Quorum.quorumW_values_batching_independent_refuted",
-             "HvNet.Quorum.quorumW_output_order_batching_independent_refuted"],
+    refuted=["HvNet.Quorum.quorumW_values_batching_independent_refuted"],
     level="proof",
     design_ref="DESIGN.md §5 C39",
     technique="Lean 4 invariant proof over the tick state machines of hydro_std::quorum / request_response + differential correspondence with the flows compiled by the production Hydro code generator, run tick by tick under every batching of small sequences",
@@ -16,12 +15,11 @@ SPEC = dict(
                 "(errors_passed_through). collect_quorum_with_response: per tick the values of a key are all its successes so far if it "
                 "reaches min in that tick and nothing otherwise (quorumW_fires_at_min), so a key is reported in exactly one tick with at "
                 "least min values (quorumW_reports_once); batching independence of the emitted *values* is REFUTED for min < max "
-                "(quorumW_values_batching_independent_refuted; finding F39, reproduced on the real code), and for a totally ordered input "
-                "the emitted *sequence* (interleaving of different keys) depends on the batching already for min = max, although the "
-                "output keeps the TotalOrder type (quorumW_output_order_batching_independent_refuted; finding F39b, reproduced on the "
-                "real code); for min = max the values per key and hence the multiset are batching independent "
-                "(quorumW_min_eq_max_values / _batching_independent). Both findings contradict the title (\"batching-independent\") and "
+                "(quorumW_values_batching_independent_refuted; finding F39, reproduced on the real code); for min = max the values per key and hence the multiset are batching independent "
+                "(quorumW_min_eq_max_values / _batching_independent). F39 contradicts the title (\"batching-independent\") and "
                 "the nondet! justification in quorum.rs, not the literal once-per-key / exactly-when / error clauses, which are proved. "
+                "Observation only, no clause of C39 and not judged by the oracle: the interleaving of DIFFERENT keys in the emitted sequence follows the "
+                "batch boundaries (quorumW_cross_key_interleaving_follows_batches_observation; counted in the histogram). "
                 "join_responses: under the documented contract each tick outputs the join of its responses with all unanswered "
                 "metadata so far (join_tick_output); over a whole run of any number of ticks a key with exactly one metadata entry "
                 "and exactly one response yields exactly one output pairing them (join_run_matches_exactly_once), a key without a "
@@ -31,7 +29,7 @@ SPEC = dict(
                 "per batch, diffing every tick's output with the compiled Lean state machine (also outside the <= max domain), and for "
                 "each sequence of length <= 7 reruns the real flow under every composition into batches and evaluates the property "
                 "(fires exactly when min is reached, once per key, same key set across batchings, errors in order, same value multiset "
-                "and same output sequence across batchings -- the last two report F39 / F39b under their own narrow signatures) directly."),
+                "across batchings -- the last one reports F39 under its own narrow signature) directly."),
     level_note=("Trusted: Lean kernel + propext/Classical.choice/Quot.sound; DFIR operators (fold_keyed, anti_join, join_multiset, "
                 "defer_tick state) are modelled by list functions and only exercised; one run_tick = one batch (production tick partition "
                 "of the embedded backend); the simulator's exhaustive mode is not used; keys/values are u32; the per-key response bound "
